@@ -89,7 +89,8 @@ struct default_color_converter_impl< rgb_t, hsl_t >
          }
          else
          {
-            saturation = diff / ( 2.f - sum );
+            // 2 - sum cancels for nearly white colours: keep the quotient inside the channel range
+            saturation = (std::min)( 1.f, diff / ( 2.f - sum ));
 
          }
 
